@@ -8,7 +8,7 @@ from concurrent.futures import ThreadPoolExecutor
 import vlib
 from checks import common
 
-KERNELS = ["infinity_norm", "center_mod", "decompose", "make_hint", "power2round", "bit_pack", "ntt", "inv_ntt", "mat_vec_mul", "to_mont", "reductions", "half_byte"]
+KERNELS = ["infinity_norm", "center_mod", "decompose", "make_hint", "power2round", "bit_pack", "ntt", "inv_ntt", "mat_vec_mul", "to_mont", "reductions", "half_byte", "is_in_range"]
 
 
 def known_variant_instructions(bindir):
@@ -46,7 +46,7 @@ def lackey(bindir, args, infile, dump=None, skip=""):
     """Run the probe under valgrind-lackey and reduce its (instruction, load/store address) stream to
     block digests on the fly (the raw trace, millions of lines, is never stored)."""
     probe = os.path.join(bindir, "ctprobe")
-    drive = os.path.join(bindir, "drive")
+    drive = os.path.join(vlib.HARNESS, "target", "release", "drive")      # the trace reducer (built by run() before any observation)
     cmd = "valgrind --tool=lackey --trace-mem=yes --log-fd=2 %s %s %s 2>&1 >/dev/null | %s cthash block=4096%s%s" % (
         probe, " ".join(args), infile, drive, (" dump=%d" % dump) if dump is not None else "", (" skip=" + skip) if skip else "")
     p = subprocess.run(["bash", "-c", cmd], stdout=subprocess.PIPE, stderr=subprocess.PIPE, text=True, timeout=1800, env={"PATH": os.environ["PATH"], "LC_ALL": "C"})
@@ -81,10 +81,43 @@ def run(tier, seed):
         if ln.startswith("CTEDGE"):
             _, s, score, hx = ln.split()
             edge[int(s)].append(("edge-key(score %s)" % score, bytes.fromhex(hx) + b"\x5a" * 32))
+    # RNG outputs whose (single) signing attempt samples a mask of special shape -- a polynomial that starts with a zero
+    # coefficient (1 in 65 000 - 210 000), else zero coefficients somewhere -- found by running the real entry point natively
+    # with the expand_mask_out hook event
+    for ln in vlib.drive(rel, "sweeps", seed=seed, ctpipe=30000 if tier == "quick" else 1200000, want=1 if tier == "quick" else 3, timeout=3600).splitlines():
+        if ln.startswith("CTPIPE"):
+            _, s, score, hx = ln.split()
+            edge[int(s)].append(("special-mask(score %s)" % score, bytes.fromhex(hx)))
     chk.cov["ctest_edge_seeds"] = {str(k): len(v) for k, v in edge.items()}
+    # ExpandMask alone: ordinary rho'' against rho'' whose first mask polynomial starts with a zero coefficient
+    masks = {18: [], 20: []}
+    for ln in vlib.drive(rel, "sweeps", seed=seed, ctmask=8000000 if tier == "quick" else 64000000, want=1 if tier == "quick" else 3).splitlines():
+        if ln.startswith("CTMASK"):
+            _, bits, hx = ln.split()
+            masks[int(bits)].append(("first coefficient zero", bytes.fromhex(hx)))
+    for bits in (18, 20):
+        if not masks[bits]:
+            raise vlib.ToolError("no ExpandMask input with a leading zero coefficient found (%d bits)" % bits)
+        for i, (label, data) in enumerate([(l, d[:64]) for l, d in rngs[:nrng]] + masks[bits]):
+            jobs.append(("mask-%d" % bits, label, ["mask", str(bits)], mkfile("m%02d_%d.bin" % (i, bits), data)))
     for s in (44, 65, 87):
         for i, (label, data) in enumerate(rngs + edge[s]):
             jobs.append(("dudect-%d" % s, label, ["dudect", str(s)], mkfile("r%02d_%d.bin" % (i, s), data)))
+    # builds WITH debug assertions and overflow checks (the repository's dev profile, opt-level 1): the self-checks are code too.
+    # RNG outputs on which the entry point panics there (recorded finding of C13) are left out: there is no trace to compare.
+    devdir = vlib.build_harness("ctdev")
+    devprobe = os.path.join(devdir, "ctprobe")
+    ndev = 3 if tier == "quick" else 8
+    for s in (44, 65, 87):
+        taken = 0
+        for i, (label, data) in enumerate(rngs + edge[s]):
+            if taken >= ndev:
+                break
+            f = mkfile("d%02d_%d.bin" % (i, s), data)
+            if subprocess.run([devprobe, "dudect", str(s), f], stdout=subprocess.DEVNULL, stderr=subprocess.DEVNULL).returncode != 0:
+                continue
+            jobs.append(("dudect-debug-assertions-%d" % s, label, ["dudect", str(s)], f, devdir))
+            taken += 1
     q = 8380417
     def le(vals):
         return b"".join(int(v).to_bytes(4, "little", signed=True) for v in vals)
@@ -118,11 +151,11 @@ def run(tier, seed):
             skip = ""   # it no longer manifests: compare everything exactly
     chk.cov["known_variant_sites"] = sites
     with ThreadPoolExecutor(max_workers=14) as ex:
-        obs = list(ex.map(lambda j: lackey(bindir, j[2], j[3], skip=skip), jobs))
+        obs = list(ex.map(lambda j: lackey(j[4], j[2], j[3]) if len(j) > 4 else lackey(bindir, j[2], j[3], skip=skip), jobs))
     trace = os.path.join(chk.workdir, "ct.ndjson")
     lines = 0
     with open(trace, "w") as f:
-        for (group, label, args, infile), o in zip(jobs, obs):
+        for (group, label, args, infile, *_), o in zip(jobs, obs):
             f.write(json.dumps(dict(ev="CtRun", group=group, input=label, nlines=o["nlines"], blocks=o["blocks"])) + "\n")
             lines += o["nlines"]
         # ImplCT skeleton: one rejection-loop attempt in CTEST mode for every secret (not under valgrind)
@@ -149,11 +182,12 @@ def run(tier, seed):
             blk = int(m.group(1)) - 1 if m else 0
             ref = next(j for j in jobs if j[0] == e["group"])
             me = next(j for j in jobs if j[0] == e["group"] and j[1] == e["input"])
-            a = lackey(bindir, ref[2], ref[3], dump=blk, skip=skip).splitlines()
-            b = lackey(bindir, me[2], me[3], dump=blk, skip=skip).splitlines()
+            bd, sk_ = (me[4], "") if len(me) > 4 else (bindir, skip)
+            a = lackey(bd, ref[2], ref[3], dump=blk, skip=sk_).splitlines()
+            b = lackey(bd, me[2], me[3], dump=blk, skip=sk_).splitlines()
             diff = [(i, x, y) for i, (x, y) in enumerate(zip(a, b)) if x != y][:6]
             replay.update(block=blk, input_a=ref[1], input_b=me[1], first_differing_lines=diff,
-                          reproduce="valgrind --tool=lackey --trace-mem=yes harness/target/ctrel/ctprobe %s <file>" % " ".join(me[2]))
+                          reproduce="valgrind --tool=lackey --trace-mem=yes %s/ctprobe %s <file>" % (os.path.relpath(bd, vlib.VERIF), " ".join(me[2])))
         chk.violation("ct:" + e.get("group", "skeleton"), "execution trace depends on the secret input: group %s, inputs %s: %s" % (
             e.get("group", "skeleton"), e.get("input", ""), info[:300]), replay)
     groups = sorted({j[0] for j in jobs})
@@ -161,12 +195,14 @@ def run(tier, seed):
     chk.cov["distinct_nontrivial"] = len(jobs) - len(groups)      # every run beyond the first of its group is one pairwise comparison
     chk.cov["rule"] = ("valgrind-lackey (instruction address, load/store address) streams of the release-profile binary, cut into 4096-line blocks and compared in lockstep "
                        "within groups that share all public inputs; groups: dudect_keygen_sign_with_rng per parameter set (RNG output varies), and each secret-handling kernel alone "
-                       "(coefficient vector varies: all-zero, all-ones, alternating extremes, random); non-trivial = a run compared against the first run of its group")
+                       "(coefficient vector varies: all-zero, all-ones, alternating extremes, random), ExpandMask alone (rho'' varies, including inputs whose mask starts with a zero coefficient), "
+                       "and the entry point again in a build with debug assertions and overflow checks (the repository's dev profile); RNG outputs include searched rare ones "
+                       "(keys whose t leaves [0,q) before the last reduction, masks with zero coefficients); non-trivial = a run compared against the first run of its group")
     chk.cov["trace_lines_observed"] = lines
     chk.cov["groups"] = groups
     chk.sample(dict(group=jobs[0][0], input=jobs[0][1], nlines=obs[0]["nlines"], first_blocks=obs[0]["blocks"][:3]))
     chk.cov["exhaustive"] = False
-    chk.assumptions += ["decides the property for the compiled artefact of this toolchain and the repository's release profile",
+    chk.assumptions += ["decides the property for the compiled artefacts of this toolchain: the repository's release profile (all groups) and its dev profile (entry point only)",
                         "valgrind-lackey observes addresses, not operand-dependent instruction timing (e.g. division latency)",
                         "sampled over secrets: a trace comparison cannot be exhaustive"]
     return chk.finish()
